@@ -9,7 +9,7 @@ from typing import Awaitable, Callable
 from . import numbers
 from .numbers.optionnumbers import OptionNumber
 from .numbers import codes
-from .error import ConstructionRenderableError
+from .error import ConstructionRenderableError, BadRequest
 from .message import Message
 from .optiontypes import BlockOption
 from .util.asyncio.timeoutdict import TimeoutDict
@@ -75,6 +75,11 @@ class Block1Spool:
         block_key = _extract_block_key(req)
 
         if req.opt.block1.block_number == 0:
+            # The first block is held to its block size like the later ones
+            # are in _append_request_block: were it longer or shorter, the
+            # blocks that follow would not be where their numbers say.
+            if not req.opt.block1.is_valid_for_payload_size(len(req.payload)):
+                raise BadRequest("Payload size does not match Block1")
             # silently discarding any old incomplete operation
             self._assemblies[block_key] = req
         else:
